@@ -56,7 +56,7 @@ def run_one(m, keep=False):
         out = ""
         code = 0
         for p in props:
-            r = subprocess.run([os.path.join(HERE, "bin", "apcheck"), "-verif", HERE, "-target", dst, "-property", p, "-no-evidence"],
+            r = subprocess.run([os.environ.get("APBIN") or os.path.join(HERE, "bin", "apcheck"), "-verif", HERE, "-target", dst, "-property", p, "-no-evidence"],
                                env=ENV, capture_output=True, text=True)
             out += r.stdout + r.stderr
             code = max(code, r.returncode)
@@ -87,7 +87,8 @@ def main():
         if x == "--only": only = set(a.pop(0).split(","))
         elif x == "--jobs": jobs = int(a.pop(0))
         elif x == "--keep": keep = True
-    subprocess.run([os.path.join(HERE, "build.sh")], check=True)
+    if not os.environ.get("APBIN"):
+        subprocess.run([os.path.join(HERE, "build.sh")], check=True)
     ms = [m for m in load_mutants() if not only or m["id"] in only or m["property"] in only]
     results = []
     with concurrent.futures.ThreadPoolExecutor(max_workers=jobs) as ex:
